@@ -20,7 +20,7 @@ PROFILES = {
     'lifetime': profile(w=dict(obj=5, exp=16, call=16, rmexp=12, rmobj=7, mvobj=4, mon=1, tr=0.1, rmtr=0.1, rep=0.1, seq=1.5),
                         kinds=dict(M=7, N=2, W=1.5, P=0.2), p_seq_exp=0.15, nops=(8, 26), p_se_destroy=0.05),
     # C05/C06: sequences everywhere
-    'sequence': profile(w=dict(obj=3, seq=5, exp=18, call=36, rmexp=4, rmobj=1.5, mvobj=0.7, mon=3.5, rmseq=1.5, tr=0.1, rmtr=0.1, rep=0.1),
+    'sequence': profile(w=dict(mvseq=1.5, obj=3, seq=5, exp=18, call=36, rmexp=4, rmobj=1.5, mvobj=0.7, mon=3.5, rmseq=1.5, tr=0.1, rmtr=0.1, rep=0.1),
                         kinds=dict(M=6, N=1, W=2, P=2), p_seq_exp=0.9, p_core=0.7, p_full_mask=0.25, max_exp=8, nops=(12, 36)),
     # C07: forbidding expectations stacked with allowing ones
     'forbid': profile(w=dict(obj=2, exp=18, call=38, rmexp=7, rmobj=1, mvobj=0.7, mon=0.1, tr=0.1, rmtr=0.1, rep=0.1, seq=1),
@@ -33,10 +33,10 @@ PROFILES = {
     'deathwatch': profile(w=dict(obj=8, seq=2, exp=3, call=5, rmexp=10, rmobj=9, mvobj=4, cpobj=3, asobj=4, mon=14, rmseq=0.5, tr=0.1, rmtr=0.1, rep=0.1),
                           kinds=dict(M=1, N=0.2, W=5, P=6), max_obj=4, p_seq_exp=0.5, nops=(8, 26)),
     # C14: hostile orders; stepping into don't-care territory is allowed (only memory safety is checked there)
-    'hostile': profile(w=dict(obj=5, seq=4, exp=14, call=18, rmexp=7, rmobj=7, mvobj=6, cpobj=1, asobj=1.5, mon=5, rmseq=4, tr=1.5, rmtr=1.5, rep=0.3),
+    'hostile': profile(w=dict(mvseq=2, obj=5, seq=4, exp=14, call=18, rmexp=7, rmobj=7, mvobj=6, cpobj=1, asobj=1.5, mon=5, rmseq=4, tr=1.5, rmtr=1.5, rep=0.3),
                        kinds=dict(M=6, N=1.5, W=3, P=2), p_seq_exp=0.6, allow_cut=True, hostile_teardown=True, nops=(10, 34), p_se_destroy=0.05),
     # C15: every kind of report
-    'reports': profile(w=dict(exp=14, call=30, rmexp=6, rmobj=4, mvobj=1.5, mon=4, rmseq=1, seq=3),
+    'reports': profile(w=dict(mvseq=0.7, exp=14, call=30, rmexp=6, rmobj=4, mvobj=1.5, mon=4, rmseq=1, seq=3),
                        fn_bias=dict(h=3, gs=2), p_with_accept=0.4, p_full_mask=0.2, p_se_destroy=0.03),
     # C16: reporter swaps
     'okrep': profile(w=dict(exp=14, call=36, rmexp=4, rmobj=1.5, rep=4, mon=0.5, tr=0.2, rmtr=0.2), p_full_mask=0.5, forbid_bias=0.15),
